@@ -84,7 +84,7 @@ Own(n) == st[n].ns[n]
 \* total versions for the formulas: a node that lost its own state (possible only in a defective
 \* implementation observed through a trace) counts as holding nothing, so that the formulas FAIL instead of erring
 OwnIn(s, n) == IF n \in DOMAIN s.ns THEN s.ns[n] ELSE NewCopy
-OwnT(n) == OwnIn(st[n], n)
+OwnT(n) == IF n \in DOMAIN st THEN OwnIn(st[n], n) ELSE NewCopy
 
 -------------------------------------------------------------------------------
 \* Owner API on self_node_state()
@@ -463,6 +463,9 @@ C03_Integrity ==
          /\ m.delta[x].max <= OwnT(x).max
   /\ \A m \in net : m.t \in {"Syn", "SynAck"} =>
        \A x \in DOMAIN m.digest : m.digest[x].max <= OwnT(x).max /\ m.digest[x].hb <= OwnT(x).hb
+  \* no message names a member under an identity that no node uses
+  /\ \A m \in net : /\ (m.t \in {"Syn", "SynAck"} => DOMAIN m.digest \subseteq Node)
+                     /\ (m.t \in {"SynAck", "Ack"} => DOMAIN m.delta \subseteq Node)
 
 \* C04 -- frontiers and versions only move forward (action property) and honest messages never abort
 \* trace files concatenate executions; a "Reset" event re-initialises everything
